@@ -6,7 +6,7 @@ Case text (also the corpus / replay format):
     <filter> <t0> <shared|fresh> <call>*
     filter : oc | db:<n> | th:<ticks> | de | ag:<ticks> | cu:always|never|ge:<k>|notnum | A>B
     call   : <t>@<val>[i]      t in ticks (1/16 s); trailing i = pass the number as a Python int
-    val    : n<k> (the number k/16) | s<hex utf-8 or -> | l<ints or -> | p<v>,<min>,<max>,<pending>
+    val    : n<k> (the number k/16) | s<hex utf-8 or -> | l<ints or -> | p<v>,<min>,<max>,<pending> | b0 | b1 (False / True) | N (None)
 `shared`: one Parameter object is updated in place between calls (as the device code does).
 """
 import random
@@ -73,6 +73,10 @@ def py_value(v, as_int, shared):
         return "" if body == "-" else bytes.fromhex(body).decode()
     if k == "l":
         return [] if body == "-" else [int(x) for x in body.split(",")]
+    if k == "b":
+        return body == "1"
+    if k == "N":
+        return None
     if k == "p":
         val, mn, mx, pend = (int(x) for x in body.split(","))
         if shared is not None and shared[0] is not None:
@@ -92,8 +96,10 @@ def py_value(v, as_int, shared):
 
 def enc_value(x):
     """canonical text of something that reached the callback"""
+    if x is None:
+        return "N"
     if isinstance(x, bool):
-        return "?bool"
+        return "b1" if x else "b0"
     if isinstance(x, HParam):
         return f"p{x.values.value},{x.values.min_value},{x.values.max_value},{1 if x.pending_update else 0}"
     if isinstance(x, (int, float)):
@@ -285,10 +291,26 @@ def gen_params(rng, n):
     return out, "param"
 
 
+def gen_bools(rng, n):
+    """True / False among the numbers they compare equal or close to (1, 1.0, 0, 0.0, 0.0625, 1.0625, 1.125)"""
+    pool = [("b1", False), ("b0", False), ("n16", False), ("n16", True), ("n0", False), ("n0", True),
+            ("n1", False), ("n17", False), ("n18", False), ("n-16", True)]
+    return [rng.choice(pool) for _ in range(n)], "bool"
+
+
+FALSY = [("n0", False), ("n0", True), ("b0", False), ("s-", False), ("l-", False), ("N", False)]
+
+
+def gen_falsy(rng, n):
+    """truthiness traps: 0, 0.0, False, '', [] and None as VALUES, among a few truthy ones"""
+    pool = FALSY + [("n16", False), ("b1", False), ("s61", False), ("l0", False)]
+    return [rng.choice(FALSY) if rng.random() < 0.7 else rng.choice(pool) for _ in range(n)], "falsy"
+
+
 def gen_mixed(rng, n):
     out = []
     for _ in range(n):
-        g = rng.choice([gen_nums, gen_strs, gen_lists])
+        g = rng.choice([gen_nums, gen_strs, gen_lists, gen_bools, gen_falsy])
         out.append(g(rng, 1)[0][0])
     return out, "mixed"
 
@@ -309,7 +331,11 @@ def gen_case(rng, flt):
     first = flt.split(">")[0]
     r = rng.random()
     if first.startswith("ag"):
-        g = gen_nums if r < 0.85 else gen_mixed
+        g = gen_nums if r < 0.75 else gen_bools if r < 0.85 else gen_falsy if r < 0.9 else gen_mixed
+    elif r < 0.08:
+        g = gen_bools
+    elif r < 0.16:
+        g = gen_falsy
     elif r < 0.55:
         g = gen_nums
     elif r < 0.67:
@@ -447,7 +473,7 @@ def run(ctx):
     res.rule = ("call sequences (0..30 calls, non-decreasing clock readings with steps around the intervals) for each of "
                 "on_change, debounce(0..4), throttle, delta, aggregate, custom(4 predicates) and every ordered pair chained; "
                 "values: numbers k/16 (sub-tolerance drifts, steps of exactly 1 and 2 sixteenths, sign changes, |x| up to 10^6, "
-                "as float / int / mixed), strings (incl. 'undefined'), integer lists, Parameter objects (fresh, or one object "
+                "as float / int / mixed), True / False among 0, 1, 1.0625, 1.125, the falsy values 0, 0.0, False, '', [], None as values, strings (incl. 'undefined'), integer lists, Parameter objects (fresh, or one object "
                 "updated in place), mixed kinds. distinct = distinct case text; non-trivial = >= 2 calls with both a delivery "
                 "and a non-delivery (or a raise)")
     cases = []
